@@ -128,23 +128,23 @@ FHi(v) == IF v[3] >= 0 THEN v[2] * Pow2(24 - v[3]) ELSE v[2]
 FLo(v) == IF v[3] >= 0 THEN 0 ELSE v[4]
 FSgn(v) == IF v[3] >= 0 THEN Sgn(v[2]) ELSE IF v[2] >= 0 THEN 1 ELSE -1
 
-(* tolerance for a result of magnitude < 8 that is not representable:      *)
-(*   float : 8 units of 2^-24 = 2^-21 absolute (a few float roundings)     *)
+(* tolerance for a result that is not representable (|r| < 128 / den):     *)
+(*   float : 8 units of 2^-24 = 2^-21 absolute below 4, doubling with the  *)
+(*           binade above (a few float roundings: 2^-21 .. 2^-22 relative) *)
 (*   double: 256 units of 2^-48 = 2^-40 absolute (far above double         *)
 (*           rounding, far below float rounding)                           *)
-TolF24 == 8
+TolF24(r) == 8 * (1 + (Abs(r[1]) \div (4 * r[2])))
 TolD48 == 256
 
-(* observed value v of type ty (f or d) against the exact rational r,      *)
-(* |r| < 8, denominator <= 64                                              *)
+(* observed value v of type ty (f or d) against the exact rational r       *)
 FloatMatches(v, r, ty) ==
   IF FOutOfRange(v) THEN FALSE
   ELSE IF IsPow2(r[2])
        THEN FIsExact(v) /\ FExactRat(v) = r                      \* representable: exact
-       ELSE /\ Assert(Abs(r[1]) < 8 * r[2] /\ r[2] <= 64, <<"tolerance comparison out of range", r>>)
-            /\ Abs(FHi(v)) < 134217728
+       ELSE /\ Assert(Abs(r[1]) < 128 /\ r[2] <= 64, <<"tolerance comparison out of range", r>>)
+            /\ Abs(FHi(v)) <= 2147483647 \div r[2]
             /\ LET delta == FHi(v) * r[2] - r[1] * Two24 IN          \* (floor(x * 2^24) - r * 2^24) * den
-               IF ty = "f" THEN Abs(delta) <= (TolF24 + 1) * r[2]
+               IF ty = "f" THEN Abs(delta) <= (TolF24(r) + 1) * r[2]
                ELSE /\ Abs(delta) <= r[2]
                     /\ (Abs(delta * Two24 + FLo(v) * r[2]) \div r[2]) <= TolD48
 
